@@ -216,6 +216,11 @@ impl<R: RealNumberInternalTrait> std::ops::Mul<Number<R>> for Number<R> {
 impl<R: RealNumberInternalTrait> std::ops::Div<Number<R>> for Number<R> {
     type Output = Result<Number<R>>;
     fn div(self, rhs: Number<R>) -> Self::Output {
+        // an exact zero divisor is an error whatever the dividend (r7rs 6.2.6), also when the
+        // dividend is inexact and the operands are upcast to reals below
+        if let Number::Integer(0) | Number::Rational(0, _) = rhs {
+            return error!(LogicError::DivisionByZero);
+        }
         match upcast_oprands((self, rhs)) {
             NumberBinaryOperand::Integer(a, b) => {
                 check_division_by_zero(b)?;
